@@ -191,8 +191,9 @@ IteratorDictString *StringDictionaryFMINDEX::extractPrefix(uchar *str,
   delete[] prefix;
 
   if (num_occ > 0)
-    return new IteratorDictStringFMINDEX(fm_index, left, right - left + 1,
-                                         elements, maxlength);
+    // The iterator scans IDs from 'left' up to (not including) its limit
+    return new IteratorDictStringFMINDEX(fm_index, left, right + 1, elements,
+                                         maxlength);
   else
     return NULL;
 }
